@@ -167,8 +167,8 @@ class RecurrencePlot(Cached):
 
         self.N: int = 0
         """The number of state vectors (number of lines and rows) of the RP."""
+        self._mut_R: int = getattr(self, "_mut_R", 0)
         self.R = None
-        """The recurrence matrix."""
 
         self._mut_embedding: int = 0
         if (self.dim is not None) and (self.tau is not None):
@@ -228,7 +228,7 @@ class RecurrencePlot(Cached):
                                 plot!")
 
     def __cache_state__(self) -> Tuple[Hashable, ...]:
-        return (self._mut_embedding,)
+        return (self._mut_embedding, self._mut_R,)
 
     def __str__(self):
         """
@@ -238,6 +238,18 @@ class RecurrencePlot(Cached):
                 f"time series shape {self.time_series.shape}.\n"
                 f"Embedding dimension {self.dim if self.dim else 0}\n"
                 f"Threshold {self.threshold}, {self.metric} metric")
+
+    @property
+    def R(self):
+        """The recurrence matrix."""
+        return self._R
+
+    @R.setter
+    def R(self, R):
+        #  every `set_*()` method assigns a new matrix: invalidate the cached
+        #  line distributions
+        self._R = R
+        self._mut_R += 1
 
     @property
     def embedding(self) -> np.ndarray:
